@@ -59,6 +59,31 @@ def splitDocs (s : String) : Out (List String) :=
     if ps.any (fun p => match p with | .sep x => !sepOk x | _ => false) then .err "separator"
     else .ok (ps.filterMap fun p => match p with | .doc d => some (String.ofList d) | _ => none)
 
+/-! ### the writers' side -/
+
+/-- `resWrangler.AsYaml` (and the multi-document encoder behind `ByteWriter.Write`): every document ends in a line break,
+    documents after the first are preceded by a `---` line.  `bs` are the document texts WITHOUT their final line break. -/
+def emit : List (List Char) → List Char
+  | [] => []
+  | [b] => b ++ ['\n']
+  | b :: c :: r => b ++ '\n' :: '-' :: '-' :: '-' :: '\n' :: emit (c :: r)
+
+/-- no `\n---` inside the text -/
+def noSep : List Char → Bool
+  | [] => true
+  | c :: r => (startsSep (c :: r)).isNone && noSep r
+
+def docsOf : List Piece → List (List Char)
+  | [] => []
+  | .doc d :: r => d :: docsOf r
+  | .sep _ :: r => docsOf r
+
+/-- what the reader's splitter makes of an emitted stream: the documents, the last one with its final line break -/
+def readBack : List (List Char) → List (List Char)
+  | [] => []
+  | [b] => [b ++ ['\n']]
+  | b :: c :: r => b :: readBack (c :: r)
+
 /-! ### package writer -/
 
 /-- `strings.Contains(s, "..")` -/
